@@ -345,7 +345,11 @@ func (e *env) doTx(c *h.Ctx, f []string) string {
 			c.Count("item:sample-ok")
 			if withEx {
 				if _, err := app.AppendExemplar(ref, lbls(lid), exemplar.Exemplar{Labels: labels.FromStrings("trace_id", vs), Value: v, Ts: t, HasTs: true}); err != nil {
-					res[len(res)-1] += "!" + clean(err)
+					// (not for label sets named in an evict op: what replay left in the exemplar storage for
+					// them is decided by a race, see env.tainted)
+					if !e.tainted[lid] {
+						res[len(res)-1] += "!" + clean(err)
+					}
 				}
 				c.Count("item:exemplar")
 			}
